@@ -92,6 +92,8 @@ func mkAAT(app, client, mutate string) pc.AAT {
 		a.Version = "0.0.2"
 	case "aat-no-version":
 		a.Version = ""
+	case "aat-app-key-uppercase": // the staked application's key spelled with upper-case hex digits, token signed by the application for that spelling
+		a.ApplicationPublicKey = strings.ToUpper(a.ApplicationPublicKey)
 	}
 	a.ApplicationSignature = signHex(ckey(signer), a.Hash())
 	switch mutate {
